@@ -134,7 +134,8 @@ CLAIMS = {
                 'an empty selector match is not widened to all peers; every selector term is tested; both line readers keep '
                 'the unterminated tail and the queues are FIFO. Also: selector terms match as whole terms; received_async hands over one command per call. Not decided: arbitrary chunkings at run time, group mode semantics.'
                 ' Round 3: Processes.answer() is data, not a terminal reply (F53 fixed); the scheduler never loses a popped entry (F47 fixed); no error answer after a RIB mutation in one callback (F51 fixed); no action chosen by a fall-back word (F52 fixed); a false partial() gives no route.'
-                ' Round 4: what flush_write_queue takes from the head of a queue goes back to the head.',
+                ' Round 4: what flush_write_queue takes from the head of a queue goes back to the head.'
+                ' Round 6: dispatch_v6 and dispatch() share one notion of what a selector is (R11).',
         'note': _NOTE,
         'technique': 'path-sensitive count lattice {0,1,>=2} over handler CFGs with interprocedural summaries, def-use provenance of the peer set, sibling shape checks',
     },
@@ -157,7 +158,8 @@ CLAIMS = {
                 'is advertised under its own configuration flag. Also: the local AS never depends on what the peer announced; the iBGP test of the router-id collision uses the negotiated peer AS. Not decided: equality with an independent computation for '
                 'arbitrary OPEN pairs.'
                 ' Round 3: the family intersection is recognised as loop or comprehension; each capability is filled from its own neighbor list (addpaths / nexthops / families).'
-                ' Round 4: refusals, ADD-PATH directions and capability TLVs are read from guard facts and written-out terms, not from nesting.',
+                ' Round 4: refusals, ADD-PATH directions and capability TLVs are read from guard facts and written-out terms, not from nesting.'
+                ' Round 6: the code octet written for a capability is the key it is stored under (R7).',
         'note': _NOTE,
         'technique': 'guard/term extraction into (side, capability) sets compared with an RFC oracle table, def-use, constant folding, writer/reader layout comparison',
     },
@@ -204,7 +206,8 @@ CLAIMS = {
                 'every registered message type is handled or refused in ESTABLISHED. Also: a NOTIFICATION is written only from the except Notify arm; framing errors are handed back with the transport open; every refusal generator that is built is iterated or scheduled. Not decided: the bytes written in '
                 'every state/fault combination.'
                 ' Round 3: the Notify text rule is shared (C10.R8): a Notify that can not be built is answered 1/0 instead of its own class.'
-                ' Round 4: the TimeoutError arm of a timed read stands where the expiry is raised and raises Notify; cease subcodes kept on the object are checked at every store.',
+                ' Round 4: the TimeoutError arm of a timed read stands where the expiry is raised and raises Notify; cease subcodes kept on the object are checked at every store.'
+                ' Round 6: no catch-all handler replaces a Notify raised below it by another constant Notify (R10).',
         'note': _NOTE,
         'technique': 'constant folding of all Notify sites, explicit exception flow, path-sensitive count lattice over the handler CFG, registry exhaustiveness',
     },
@@ -225,7 +228,8 @@ CLAIMS = {
                 'Notify(3,x) escapes), both failure arms of the walk honour both flags, discard continues the walk, '
                 'the RFC 7606 section 7 class table. Also: a malformed block neither enters the block memo nor leaves its key pointing at an older collection. Not decided: which malformed values each decoder recognises.'
                 ' Round 3: the except arms are evaluated for the three RFC 7606 classes (shape independent); every path through the zero-length branch ends in a marker; nested declared lengths in the attribute decoders are compared with what is left (F43 fixed).'
-                ' Round 4: a registered code with unregistered flags is handled in the flags-error branch and never reaches the unknown-attribute tail.',
+                ' Round 4: a registered code with unregistered flags is handled in the flags-error branch and never reaches the unknown-attribute tail.'
+                ' Round 6: the per-attribute cache serves no class whose decoder reads the session (R11, shared with C15.R13 / C19.R8).',
         'note': _NOTE,
         'technique': 'AST pattern + resolved-callee rules, constant folding of class flags through the MRO, interprocedural explicit exception flow',
     },
